@@ -23,3 +23,44 @@ s = s[:a] + "\n".join(rows) + s[b:]
 s = re.sub(r"\*\*\d+ breaking changes\*\* \([a-z]+ rounds\)", f"**{N} breaking changes** (four rounds)", s)
 open(V + '/DESIGN.md', 'w').write(s)
 print(N, dict(tot))
+
+# ---- §6.0: kinds / theorem counts per property, from obligations.d
+import os
+ob = {}
+for f in sorted(glob.glob(V + '/obligations.d/*.json')):
+    for k, v in json.load(open(f)).items():
+        d = ob.setdefault(k, {})
+        for kk, vv in v.items():
+            if isinstance(vv, list):
+                d[kk] = d.get(kk, []) + [x for x in vv if x not in d.get(kk, [])]
+s = open(V + '/DESIGN.md').read()
+hdr = "| prop | correspondence kinds (Go harness ⇄ Lean model) | theorems | main theorems | partial |\n|---|---|---|---|---|\n"
+a = s.index(hdr) + len(hdr); b = s.index("\n\n", a)
+rows = []
+for p in sorted(ob):
+    o = ob[p]; th = [t.split('.')[-1] for t in o.get('theorems', [])]
+    main = ", ".join(f"`{t}`" for t in th[:7]) + (" …" if len(th) > 7 else "")
+    rows.append(f"| {p} | {', '.join('`'+k+'`' for k in o.get('kinds', []))} | {len(th)} | {main} | {'see §9' if o.get('partial') else 'nothing'} |")
+s = s[:a] + "\n".join(rows) + s[b:]
+open(V + '/DESIGN.md', 'w').write(s)
+print("§6.0 table:", len(rows), "rows")
+
+# ---- Appendix C: one row per kind with the case count of the last quick run (descriptions are kept)
+s = open(V + '/DESIGN.md').read()
+hdr = "| kind | prop | quick cases | what the Lean handler's doc comment says |\n|---|---|---|---|\n"
+a = s.index(hdr) + len(hdr); b = s.index("\n\n", a)
+desc = {}
+for line in s[a:b].split("\n"):
+    c = [x.strip() for x in line.strip().strip('|').split('|')]
+    if len(c) >= 4:
+        desc[c[0].strip('`')] = '|'.join(c[3:]).strip()
+extra = {"c08.prov": "`c08.prov <Type> Payload => sinks=… retained=… writes_input=…` : provenance summary of the CURRENT source (go/ast analysis) against what the ownership theorems say; correspondence only",
+         "c09.prov": "`c09.prov <Type> Unmarshal => …` : the same for H264Packet and AV1Depacketizer; correspondence only"}
+rows = []
+for f in sorted(glob.glob(V + '/evidence/C*.json')):
+    e = json.load(open(f))
+    for k, v in sorted(e['coverage'].get('kinds', {}).items()):
+        rows.append(f"| `{k}` | {e['property_id']} | {v.get('cases', 0)} | {desc.get(k) or extra.get(k, '')} |")
+s = s[:a] + "\n".join(rows) + s[b:]
+open(V + '/DESIGN.md', 'w').write(s)
+print("Appendix C:", len(rows), "kinds")
